@@ -25,9 +25,23 @@ def sh(cmd, cwd=None, env=None, timeout=None, check=True, stdin=None, stdout=sub
     return p
 
 
+_machinery = None
+
+
+def machinery_hash():
+    """Hash of the checking machinery itself (harness, verdict library, Lean sources): cached results
+    of one /repo tree must not survive a change of the machinery."""
+    global _machinery
+    if _machinery is None:
+        _machinery = tree_hash(VERIF, ["harness", "lib", "lean", "theorems.json", "known_findings.json"])
+    return _machinery
+
+
 def tree_hash(root=None, subdirs=None):
-    """sha256 over (relative path, content) of every file under root, minus .git."""
-    root = root or REPO
+    """sha256 over (relative path, content) of every file under root, minus .git.
+    For /repo (root=None) the hash of the machinery is folded in."""
+    if root is None:
+        return hashlib.sha256((tree_hash(REPO) + machinery_hash()).encode()).hexdigest()[:20]
     h = hashlib.sha256()
     tops = subdirs or [""]
     for top in tops:
@@ -35,9 +49,11 @@ def tree_hash(root=None, subdirs=None):
         if os.path.isfile(base):
             h.update(top.encode()); h.update(open(base, "rb").read()); continue
         for d, dirs, files in os.walk(base):
-            dirs[:] = sorted(x for x in dirs if x not in (".git", ".lake", "bin", "__pycache__"))
+            dirs[:] = sorted(x for x in dirs if x not in (".git", ".lake", "bin", "__pycache__", "Extracted"))
             for f in sorted(files):
                 p = os.path.join(d, f)
+                if root == VERIF and f == "go.sum":
+                    continue  # copied from /repo before every harness build
                 if os.path.islink(p) or not os.path.isfile(p):
                     continue
                 h.update(os.path.relpath(p, root).encode()); h.update(b"\0")
